@@ -14,3 +14,5 @@ def check(ctx, prog):
     kinds.rule_index_kind(ctx, prog)  # the split variable is one index kind throughout (what is read is what is written)
     search.rule_resume(ctx, prog)  # scope: a worker delivers every solution of its part exactly once
     dispatch.rule_global_state(ctx, prog)  # scope: no state shared between the solvers of the parts
+    process.rule_queue_lossless(ctx, prog)
+    model.rule_parts_used(ctx, prog)
